@@ -94,6 +94,44 @@ class SyncBus:
         return Consumer, Producer
 
 
+class RealInternalBus:
+    """tickit's OWN in-memory state interface (InternalStateServer / InternalStateConsumer /
+    InternalStateProducer), observed: produce and deliver events are logged like SyncBus does, the
+    delivery itself is the real code's."""
+
+    def __init__(self, trace: Trace, loop=None):
+        reset_internal_bus()
+        self.trace = trace
+        self.loop = loop
+        self.n_consumers = 0
+
+    def idle(self):
+        return True
+
+    def classes(self):
+        from tickit.core.state_interfaces.internal import InternalStateConsumer, InternalStateProducer
+        bus = self
+
+        class Consumer(InternalStateConsumer):
+            def __init__(self, callback):
+                bus.n_consumers += 1
+                self.cid = bus.n_consumers
+
+                async def observed(value, _cb=callback, _cid=self.cid):
+                    bus.trace.log("deliver", cid=_cid, topic=None, msg=msg_repr(value), replay=None)
+                    await _cb(value)
+                super().__init__(observed)
+
+        class Producer(InternalStateProducer):
+            async def produce(self, topic, value):
+                bus.trace.log("produce", topic=topic, msg=msg_repr(value),
+                              real=bus.loop.now_ns() if bus.loop else None,
+                              step=bus.loop.step if bus.loop else None)
+                await super().produce(topic, value)
+
+        return Consumer, Producer
+
+
 class SeededChooser:
     def __init__(self, seed):
         self.rng = random.Random(seed)
@@ -105,7 +143,8 @@ class SeededChooser:
         return i
 
     def yields(self):
-        return self.rng.choice((0, 0, 0, 1, 2))
+        # occasionally a long pause: everything that is runnable gets far ahead of the next delivery
+        return self.rng.choice((0, 0, 0, 1, 2, 9))
 
     def ack(self):
         """loop yields between a message becoming visible and `produce` returning (slow acknowledgement)"""
